@@ -80,6 +80,16 @@ class Ctx:
         self.notes = []
         self.t0 = time.time()
         self.budget_s = None
+        self.stop = False
+
+    def cases(self, n):
+        """case indices of this shard; ends early once a no-progress violation was recorded
+        (every further case would burn its whole CPU budget again)"""
+        for i in range(n):
+            if self.stop or self.out_of_time():
+                self.notes.append(f"shard {self.shard} stopped early after {i} of {n} cases")
+                return
+            yield i
 
     # -- case bookkeeping -------------------------------------------------
     def rng(self, *key):
@@ -105,6 +115,8 @@ class Ctx:
     # -- violations ---------------------------------------------------------
     def violation(self, mechanism, what, witness=None, case=None):
         """`mechanism` names *what* failed (never a seed / hash / random value)."""
+        if mechanism.startswith("no-progress") or mechanism.startswith("livelock"):
+            self.stop = True
         v = self.violations.setdefault(
             mechanism, {"count": 0, "what": what, "witnesses": []})
         v["count"] += 1
